@@ -68,3 +68,4 @@ Definition exr_two_passes_scaled_ok (k : Q) (t t' : sk (BNode XQ)) (a b : BSize 
   | Some lss, Some lss' => list_eqb (list_eqb blay_eqb) (map (map (blay_scale k)) lss) lss'
   | _, _ => false
   end.
+
